@@ -3,15 +3,55 @@ C16 — Last will is published exactly when a connection ends without DISCONNECT
 Router part: `last_wills` bookkeeping and `handle_last_will`. (When the server emits
 `PublishWill` — on every connection end that did not see a DISCONNECT packet — belongs to the
 stack slice.)
+
+Vocabulary (definitions in Proofs/Lemmas/Router/Rp2_*.lean): `registeredEvents evs` / `willSetEvents evs` /
+`acceptedEvents evs` / `appendedEvents evs` are the projections of a piece of ghost history to its
+`registered` / `willSet` / `accepted` / `appended` events; `willPub w` is the publish a stored will
+turns into (QoS, topic, payload, retain flag as registered; packet id 0); `logAt s i` is the log of
+filter `i`; `appendN p n` appends `n` copies of `p`; `firedCount cid g` / `setCount cid g` count the
+`willFired cid` / `willSet cid` events of `g`; `stored lw cid` is 1 if `lw` holds a will for `cid`, else 0;
+`run2` / `Reachable2 cfg s`: fold of `step` over (operation, oracle choices) pairs from `init cfg`.
 -/
-import Proofs.Lemmas.Router.Frame
+import Proofs.Lemmas.Router.Rp2_Will
+import Proofs.Lemmas.Router.Rp2_Examples
+import Proofs.Lemmas.Router.Rp2_Reach
+import Proofs.Props.C01
 namespace C16
 open Router
+
+/-! ### registration -/
+
+/-- `will_stored_iff_registered`: a CONNECT either is rejected (invalid client id, or the broker is
+    full: a `notRegistered` event, no `registered` event) and then `last_wills` is untouched, or is
+    admitted (exactly one `registered` event, for this client on this link) and then the will is
+    stored under the client id iff the CONNECT carries one (`willSet` event iff so); an admitted
+    CONNECT without a will stores nothing -/
+theorem will_stored_iff_registered (s s' : RState) (spec : ConnectSpec)
+    (h : handleNewConnection s spec = .ok s') :
+    ∃ evs, s'.ghost = s.ghost ++ evs ∧
+      ((registeredEvents evs = [] ∧ willSetEvents evs = [] ∧ Ghost.notRegistered spec.link ∈ evs ∧
+          s'.lastWills = s.lastWills) ∨
+       ((∃ id, registeredEvents evs = [(id, spec.link, spec.clientId)]) ∧
+          willSetEvents evs = (if spec.will.isSome then [spec.clientId] else []) ∧
+          s'.lastWills = (match spec.will with
+            | some w => ainsert spec.clientId w s.lastWills
+            | none => s.lastWills) ∧
+          (∀ w, spec.will = some w → alookup spec.clientId s'.lastWills = some w))) := by
+  obtain ⟨evs, hg, hcase⟩ := handleNewConnection_will h
+  refine ⟨evs, hg, ?_⟩
+  rcases hcase with a | ⟨a, b, c⟩
+  · exact .inl a
+  · refine .inr ⟨a, b, c, ?_⟩
+    intro w hw
+    rw [c, hw]
+    exact alookup_ainsert_same _ _ _
 
 /-- a client without a registered will never causes one: `PublishWill` is a no-op -/
 theorem no_will_without_registration (s : RState) (cid : String) (h : alookup cid s.lastWills = none) :
     handleLastWill s cid = .ok s := by
   simp [handleLastWill, h]
+
+/-! ### DISCONNECT -/
 
 /-- a DISCONNECT packet removes the client's will, so a later `PublishWill` publishes nothing -/
 theorem disconnect_packet_removes_will (s : RState) (id : Nat) (cid : String) (fl : Flags) :
@@ -20,30 +60,138 @@ theorem disconnect_packet_removes_will (s : RState) (id : Nat) (cid : String) (f
   refine ⟨_, _, rfl, ?_, rfl⟩
   simp [RState.g, alookup_aremove_same]
 
+/-- `no_will_after_disconnect_packet`, packet level: DISCONNECT followed by `PublishWill` for that
+    client changes nothing at all — no `accepted` event, logs and retained map untouched -/
+theorem no_will_after_disconnect_packet (s s1 : RState) (id : Nat) (cid : String) (fl fl1 : Flags)
+    (h : handlePacket s id cid .disconnect fl = .ok (s1, fl1)) :
+    handleLastWill s1 cid = .ok s1 ∧ s1.datalog = s.datalog ∧
+    s1.ghost = s.ghost ++ [.willCleared cid] := by
+  simp only [handlePacket, Except.ok.injEq, Prod.mk.injEq] at h
+  obtain ⟨rfl, _⟩ := h
+  refine ⟨?_, rfl, rfl⟩
+  apply no_will_without_registration
+  simp [RState.g, alookup_aremove_same]
+
+/-- the same for a whole `DeviceData` event: if the batch read from the connection reaches a
+    DISCONNECT packet (the packets before it do not stop the batch), then after the event — which
+    also closes the connection — the client has no will, and `PublishWill` is a no-op -/
+theorem no_will_after_disconnect_in_batch (s s' s1 : RState) (id : Nat) (c : Conn) (fl1 : Flags)
+    (pre post : List Packet) (hc : getConn s id = some c)
+    (hib : (getLink s c.link).ibuf = pre ++ Packet.disconnect :: post)
+    (hpre : handlePackets (setLink s c.link { getLink s c.link with ibuf := [] }) id c.clientId pre {} = .ok (s1, fl1))
+    (hns : fl1.stop = false) (h : handleDevicePayload s id = .ok s') :
+    alookup c.clientId s'.lastWills = none ∧ handleLastWill s' c.clientId = .ok s' := by
+  have := handleDevicePayload_disconnect_clears_will hc hib hpre hns h
+  exact ⟨this, no_will_without_registration s' c.clientId this⟩
+
+/-! ### publication -/
+
 /-- firing the will consumes it: whatever the outcome, the will is gone afterwards, hence it is
     published at most once -/
 theorem will_fires_at_most_once (s s' : RState) (cid : String) (h : handleLastWill s cid = .ok s') :
     alookup cid s'.lastWills = none := by
-  unfold handleLastWill at h
-  split at h
-  · rename_i hn; simp only [Except.ok.injEq] at h; subst h; exact hn
-  · simp only [] at h
-    split at h
-    · simp only [Except.ok.injEq] at h; subst h
-      simp [RState.g, alookup_aremove_same]
-    · split at h
-      · simp at h
-      · rename_i s1 idxs h1
-        split at h
-        · simp at h
-        · rename_i s2 h2
-          have a := dlMatches_lastWills h1
-          have b := appendToFilters_lastWills idxs h2
-          have c := drainNotifications_lastWills _ h
-          rw [c]
-          show alookup cid s2.lastWills = none
-          rw [b.1, a.1]
-          simp [updateRetained, RState.g, alookup_aremove_same]
-          split <;> (try split) <;> simp [alookup_aremove_same]
+  cases hw : alookup cid s.lastWills with
+  | none =>
+    rw [no_will_without_registration s cid hw] at h
+    simp only [Except.ok.injEq] at h; subst h; exact hw
+  | some w =>
+    cases ht : utf8? w.topic with
+    | none => exact (handleLastWill_invalid_topic hw ht h).1
+    | some topic => exact (handleLastWill_fires hw ht h).1
+
+/-- `will_published_exactly_once`: `PublishWill` for a client with a stored will (valid topic):
+    the history gains one `willFired` and exactly one `accepted` event — the will with QoS, topic,
+    payload and retain flag as registered —, the retained map is updated with it exactly as for a
+    client publish (C15), an unflagged copy is appended to the log of filter `j` as many times as
+    `j` occurs in the index list `matches` returned — which, for a topic not yet cached, is the
+    multiplicity of `j` among the filters matching the topic (C01): exactly the matching filters —
+    and the will is removed, so a second `PublishWill` is a no-op -/
+theorem will_published_exactly_once (s s' : RState) (cid : String) (w : Will) (topic : String)
+    (hw : alookup cid s.lastWills = some w) (ht : utf8? w.topic = some topic)
+    (h : handleLastWill s cid = .ok s') :
+    ∃ (idxs : List Nat) (evs : List Ghost),
+      s'.ghost = s.ghost ++ [.willFired cid, .accepted none (willPub w) topic] ++ evs ∧
+      acceptedEvents evs = [] ∧
+      appendedEvents evs = idxs.map (fun i => (i, { willPub w with retain := false })) ∧
+      (∀ j, logAt s' j = (logAt s j).map (appendN { willPub w with retain := false } (idxs.count j))) ∧
+      (alookup topic s.datalog.publishFilters = none →
+        (∀ j, idxs.count j = ((s.datalog.filterIndexes.filter (fun p => topicMatches topic p.1)).map (·.2)).count j) ∧
+        (∀ j, j ∈ idxs ↔ j ∈ (s.datalog.filterIndexes.filter (fun p => topicMatches topic p.1)).map (·.2))) ∧
+      s'.datalog.retained = (updateRetained s topic (willPub w)).datalog.retained ∧
+      alookup cid s'.lastWills = none ∧ handleLastWill s' cid = .ok s' := by
+  obtain ⟨hgone, s0, s1, idxs, evs, hd, ho, hm, hg, ha, hc, hr, hl⟩ := handleLastWill_fires hw ht h
+  refine ⟨idxs, evs, hg, hc, ha, hl, ?_, hr, hgone, no_will_without_registration s' cid hgone⟩
+  intro hcache
+  -- the state `matches` runs on has the datalog indexes of `s`
+  have u := updateRetained_same s0 topic (willPub w)
+  have hpf : ((updateRetained s0 topic (willPub w)).g (.accepted none (willPub w) topic)).datalog.publishFilters =
+      s.datalog.publishFilters := by
+    show (updateRetained s0 topic (willPub w)).datalog.publishFilters = _
+    rw [u.2.2.2.1, hd]
+  have hfi : ((updateRetained s0 topic (willPub w)).g (.accepted none (willPub w) topic)).datalog.filterIndexes =
+      s.datalog.filterIndexes := by
+    show (updateRetained s0 topic (willPub w)).datalog.filterIndexes = _
+    rw [u.2.2.1, hd]
+  have hcache' : alookup topic ((updateRetained s0 topic (willPub w)).g
+      (.accepted none (willPub w) topic)).datalog.publishFilters = none := by rw [hpf]; exact hcache
+  constructor
+  · intro j
+    have := dlMatches_count hcache' hm j
+    rw [hfi] at this
+    exact this
+  · intro j
+    have := C01.publish_goes_to_exactly_the_matching_filters _ _ topic idxs hcache' hm j
+    rw [hfi] at this
+    exact this
+
+/-- a stored will whose topic is not valid UTF-8 is dropped: removed, nothing published -/
+theorem will_with_invalid_topic_is_dropped (s s' : RState) (cid : String) (w : Will)
+    (hw : alookup cid s.lastWills = some w) (ht : utf8? w.topic = none)
+    (h : handleLastWill s cid = .ok s') :
+    alookup cid s'.lastWills = none ∧ s'.datalog = s.datalog ∧ s'.ghost = s.ghost ++ [.willFired cid] :=
+  handleLastWill_invalid_topic hw ht h
+
+/-! ### every history -/
+
+/-- in every reachable state of the router model and for every client: (will publications so far)
+    + (1 if a will is currently stored) ≤ (CONNECTs that registered a will): a registered will is
+    published at most once, and a stored will always stems from a registration not yet consumed -/
+theorem will_fired_at_most_once_per_registration (cfg : Config) (s : RState) (h : Reachable2 cfg s)
+    (cid : String) : firedCount cid s.ghost + stored s.lastWills cid ≤ setCount cid s.ghost :=
+  (reachable_histInv h).wills cid
+
+/-- in particular a client that never registered a will never has one published, in any history -/
+theorem never_a_will_without_registration (cfg : Config) (s : RState) (h : Reachable2 cfg s) (cid : String)
+    (hnone : setCount cid s.ghost = 0) : firedCount cid s.ghost = 0 ∧ alookup cid s.lastWills = none := by
+  have := (reachable_histInv h).wills cid
+  rw [hnone] at this
+  refine ⟨by omega, ?_⟩
+  have hs : stored s.lastWills cid = 0 := by omega
+  unfold stored at hs
+  cases hl : alookup cid s.lastWills with
+  | none => rfl
+  | some w => simp [hl] at hs
+
+/-! ### non-vacuity -/
+
+/-- a CONNECT with a will on an empty broker is admitted and stores it; `PublishWill` then fires
+    it once (one `accepted` event) and a second `PublishWill` finds nothing -/
+example : ∃ s1 s2, handleNewConnection (init exConfig) exSpecWill = .ok s1 ∧
+    alookup "w" s1.lastWills = some exWill ∧
+    handleLastWill { s1 with oracle := [.matches []] } "w" = .ok s2 ∧
+    (acceptedEvents s2.ghost).length = 1 ∧ alookup "w" s2.lastWills = none ∧
+    handleLastWill s2 "w" = .ok s2 :=
+  ⟨_, _, rfl, rfl, rfl, rfl, rfl, rfl⟩
+
+/-- DISCONNECT, then `PublishWill`: nothing is accepted -/
+example : ∃ s1 s2 fl, handleNewConnection (init exConfig) exSpecWill = .ok s1 ∧
+    handlePacket s1 0 "w" .disconnect {} = .ok (s2, fl) ∧ handleLastWill s2 "w" = .ok s2 ∧
+    acceptedEvents s2.ghost = [] :=
+  ⟨_, _, _, rfl, rfl, rfl, rfl⟩
+
+/-- a reachable state in which the will of "w" has been registered once and fired once -/
+example : ∃ s, Reachable2 exConfig s ∧ setCount "w" s.ghost = 1 ∧ firedCount "w" s.ghost = 1 ∧
+    alookup "w" s.lastWills = none :=
+  ⟨_, ⟨[(.connect exSpecWill, []), (.event 0 (.publishWill "w"), [.matches []])], rfl⟩, rfl, rfl, rfl⟩
 
 end C16
